@@ -114,6 +114,7 @@ func Main() {
 				res.Harness = append(res.Harness, fmt.Sprintf("%s/%s: %v", name, root.Name, err))
 				continue
 			}
+			countShapes(res, root)
 			func() {
 				defer func() {
 					if r := recover(); r != nil {
@@ -139,5 +140,16 @@ func finishResult(o Options, res *Result) {
 	} else if err := ioutil.WriteFile(o.Out, b, 0o644); err != nil {
 		fmt.Fprintln(os.Stderr, err)
 		os.Exit(3)
+	}
+}
+
+// countShapes records, as evidence of reach, how many field occurrences of every
+// shape class the monitored types contain.
+func countShapes(res *Result, ms *spec.Msg) {
+	for _, a := range ms.Live() {
+		res.Counters["shape:"+a.Class]++
+		if a.Msg != nil {
+			countShapes(res, a.Msg)
+		}
 	}
 }
